@@ -324,7 +324,7 @@ func genCase(rng *hx.Rng, meta *hx.Meta, withPanics bool) pcase {
 			}
 			b := probe.Beh{B: choices[rng.Intn(len(choices))], ID: i*10 + k}
 			if b.B == probe.BPanic {
-				b.PKind = rng.Intn(4)
+				b.PKind = rng.Intn(5)
 				b.Timeout = rng.Bool()
 				b.Wrap = rng.Bool()
 			}
@@ -474,6 +474,49 @@ func main() {
 				if e.Pos >= 0 && e.Pos < len(full) && full[e.Pos] != e.HID {
 					meta.Violate(hx.Violation{Property: "C03", What: "visited position does not hold that handler", Signature: "routing-pos", Replay: rep})
 				}
+			}
+		}
+		// oracle 3 (routing, where the event enters): an inbound kind fired at the head is first seen by the first handler
+		// FROM THE HEAD that implements the kind's interface, a write fired at the tail by the first one FROM THE TAIL
+		firstKind, fromTail := -1, false
+		switch c.Entry.Kind {
+		case "fire":
+			firstKind, fromTail = c.Entry.K, c.Entry.K == probe.KWrite
+		case "chanwrite":
+			firstKind, fromTail = probe.KWrite, true
+		case "chantrigger":
+			firstKind = probe.KEvent
+		}
+		if firstKind >= 0 {
+			wantPos := -1
+			for i := 1; i < len(full)-1; i++ {
+				p := i
+				if fromTail {
+					p = len(full) - 1 - i
+				}
+				if caps[full[p]]>>uint(firstKind)&1 == 1 {
+					wantPos = p
+					break
+				}
+			}
+			gotPos := -1
+			for _, e := range o.Trace {
+				if e.Kind == "visit" {
+					gotPos = e.Pos
+					if e.EKind != firstKind {
+						gotPos = -2
+					}
+					break
+				}
+			}
+			if wantPos >= 0 && gotPos != wantPos {
+				meta.Violate(hx.Violation{Property: "C03", What: fmt.Sprintf("an event of kind %d entering through %s must first be seen by the handler at position %d (the first one that implements the kind's interface), it was first seen at position %d (-1: by nobody)", firstKind, c.Entry.Kind, wantPos, gotPos), Signature: "routing-first", Replay: rep})
+			}
+		}
+		for _, e := range o.Trace {
+			if (e.Kind == "visit" && e.EKind == probe.KException || e.Kind == "close") && e.Cls == 4 {
+				meta.Violate(hx.Violation{Property: "C07", What: "an exception handler (or the close reason) received an error value that is neither the panic value itself nor, for non-error panic values, its text: the identity of an error panic value was lost", Signature: "exception-identity", Replay: rep})
+				break
 			}
 		}
 		if o.Escaped && c.Entry.Kind != "fire" {
